@@ -12,8 +12,9 @@ import (
 func transcode(h *rt.H, src, dst *codec) {
 	ndocs := h.Choose("docs", 1, h.Param("DOCS", 1))
 	var stream []byte
+	rep := &repChoice{}
 	for i := 0; i < ndocs; i++ {
-		d := shapedDoc(h, src)
+		d := shapedDocRep(h, src, rep)
 		// streams are container documents (scalars have no separator in JSON output)
 		if ndocs > 1 && len(d) > 0 && src == jsonCodec && d[0] != '[' && d[0] != '{' && d[0] != ' ' && d[0] != '\n' && d[0] != '\t' {
 			h.Assume(false)
